@@ -85,6 +85,30 @@ func runRef(c *core.Ctx, ck *Check, specs []*refSpec) {
 				p.Add(s, seen)
 			}
 		}
+		if j.k == 2 {
+			// carry sweep: 1.<2^e-1 | 2^e | 2^e+1>.5 for e = 8..31 next to 2.0.3 and 1.0.7 (a carry out of a packed field,
+			// or a truncated one, must not outweigh the earlier component)
+			pre := ""
+			if sp.eco == "golang" {
+				pre = "v"
+			}
+			for _, s := range []string{"2.0.3", "1.0.7", "2.0.0", "1.1.5"} {
+				if sp.domain(pre + s) {
+					p.Add(pre+s, seen)
+				}
+			}
+			for ex := 8; ex <= 31; ex++ {
+				for d := int64(-1); d <= 1; d++ {
+					n := int64(1)<<ex + d
+					for _, s := range []string{"1." + strconv.FormatInt(n, 10) + ".5", "1.1." + strconv.FormatInt(n, 10)} {
+						if sp.domain(pre + s) {
+							p.Add(pre+s, seen)
+						}
+					}
+				}
+			}
+			w.Count("carry_sweep_pools", 1)
+		}
 		for tries := 0; len(p.Strs) < size && tries < 200; tries++ {
 			var batch []string
 			switch {
